@@ -266,34 +266,46 @@ func checkTopology(s *verifh.Sink, groups []grp, nodes []string, r *rand.Rand, p
 			judge(evs, false, "duplicate-event")
 		}
 	}
-	// detours: extra node / group added then removed; node removed and re-added; group updated from another shape
-	for k := 0; k < 12; k++ {
+	// detours: extra node / group added then removed (the extra sorts first, in the middle or last; it is removed
+	// right away, later, or as the very last event); node removed and re-added; group updated from another shape
+	extras := []string{"a-first", "n1a-middle", "zz-last"}
+	for k := 0; k < 24; k++ {
 		evs := append([]event(nil), base...)
 		r.Shuffle(len(evs), func(i, j int) { evs[i], evs[j] = evs[j], evs[i] })
 		ins := func(pos int, e ...event) {
 			evs = append(evs[:pos:pos], append(e, evs[pos:]...)...)
 		}
 		variant := ""
-		switch k % 4 {
-		case 0:
+		switch k % 6 {
+		case 0, 1:
+			x := extras[r.Intn(len(extras))]
 			p := r.Intn(len(evs) + 1)
-			ins(p, event{kind: "N+", n: "zz-extra"})
-			ins(p+1+r.Intn(len(evs)-p), event{kind: "N-", n: "zz-extra"})
+			ins(p, event{kind: "N+", n: x})
+			if k%6 == 0 {
+				ins(p+1+r.Intn(len(evs)-p), event{kind: "N-", n: x})
+			} else {
+				evs = append(evs, event{kind: "N-", n: x}) // nothing after the removal can repair the node list
+			}
 			variant = "detour-node"
-		case 1:
-			p := r.Intn(len(evs) + 1)
-			ins(p, event{kind: "G+", g: grp{name: "a-extra", shards: 3, replicas: 1}})
-			ins(p+1+r.Intn(len(evs)-p), event{kind: "G-", g: grp{name: "a-extra"}})
-			variant = "detour-group"
 		case 2:
+			p := r.Intn(len(evs) + 1)
+			ins(p, event{kind: "G+", g: grp{name: []string{"a-extra", "g-bb", "zz-extra"}[r.Intn(3)], shards: 3, replicas: 1}})
+			evs = append(evs, event{kind: "G-", g: grp{name: evs[p].g.name}})
+			variant = "detour-group"
+		case 3:
 			n := nodes[r.Intn(len(nodes))]
 			evs = append(evs, event{kind: "N-", n: n}, event{kind: "N+", n: n})
 			variant = "node-rejoin"
-		case 3:
+		case 4:
 			g := groups[r.Intn(len(groups))]
 			old := grp{name: g.name, shards: g.shards + 2, replicas: 0}
 			ins(0, event{kind: "G+", g: old})
 			variant = "group-update"
+		case 5: // two extras leave in the opposite order of their arrival
+			ins(r.Intn(len(evs)+1), event{kind: "N+", n: extras[0]})
+			ins(r.Intn(len(evs)+1), event{kind: "N+", n: extras[1]})
+			evs = append(evs, event{kind: "N-", n: extras[0]}, event{kind: "N-", n: extras[1]})
+			variant = "detour-node"
 		}
 		judge(evs, false, variant)
 	}
@@ -318,6 +330,17 @@ func TestVerifC16(t *testing.T) {
 					topologies++
 				}
 			}
+		}
+	}
+	// larger lookup tables (sorting algorithms switch strategy above a dozen entries)
+	for i, shape := range [][]uint32{{8, 8, 4}, {16, 1, 5}, {13}, {7, 6}, {5, 5, 5}, {20, 3}} {
+		var groups []grp
+		for j, sh := range shape {
+			groups = append(groups, grp{name: names[j%3] + fmt.Sprint(j/3), shards: sh, replicas: uint32((i + j) % 3)})
+		}
+		for _, nn := range []int{3, 4} {
+			checkTopology(s, groups, nodeNames[:nn], r, budget)
+			topologies++
 		}
 	}
 	s.Count("topologies", int64(topologies))
